@@ -1,8 +1,100 @@
 import GceTcb.Base.Line
-/- Driver handler for stream `c11` (stub: replaced when the property's model lands). -/
+import GceTcb.Model.Rotate
+import GceTcb.Model.CAStore
+/- Driver handler for stream `c11` (storage write logs of gcsca.Finalize and their prefixes). -/
 namespace GceTcb.Drive.C11
-open GceTcb
+open GceTcb GceTcb.CA
 
-def handle (_f : Fields) : String := "unimplemented"
+def insertSorted (x : String) : List String → List String
+  | [] => [x]
+  | y :: ys => if x = y then y :: ys else if x < y then x :: y :: ys else y :: insertSorted x ys
+
+/-- sorted, duplicates removed -/
+def sortU (l : List String) : List String := l.foldr insertSorted []
+
+def b2s (b : Bool) : String := if b then "1" else "0"
+
+def cfgOf (ow : Bool) : Cfg :=
+  { ca := .gcsca, km := .memkm, rootPath := "root.crt", certDir := "certs/", bump := bumpName,
+    pubPre := 0, pubPost := 0, overwrite := ow }
+
+def rootCert : Cert := ⟨"rootcn", 1, 0, 0⟩
+def firstCert : Cert := ⟨"sigcn", 2, 1, 0⟩
+
+def keyName : Nat → String
+  | 0 => "sk"
+  | n + 1 => bumpName (keyName n)
+
+/-- certificate of the j-th rotation (j ≥ 1): serial 2 + j, key material 1 + j, signed by the root -/
+def rotCert (j : Nat) : Cert := ⟨"sig", 2 + j, 1 + j, 0⟩
+
+def showObj : Obj → String
+  | .der c => s!"d.{c.cn}-{c.serial}.{c.pub}.{c.sigBy}"
+  | .pem c => s!"p.{c.cn}-{c.serial}.{c.pub}.{c.sigBy}"
+  | .manifest m => "m." ++ m.root ++ "|" ++ m.signing ++ "|" ++
+      ",".intercalate (m.entries.map fun (e : String × String) => e.1 ++ ">" ++ e.2)
+
+def showStore (st : Store) : String :=
+  let paths := sortU (st.map (·.1))
+  ";".intercalate (paths.filterMap fun p => (lookup st p).map fun o => p ++ "=" ++ showObj o)
+
+def showOp : StoreOp → String
+  | .ex p => "e:" ++ p
+  | .wr p _ => "w:" ++ p
+
+def orderOf (names : List String) (pending : List (String × Cert)) : List (String × Cert) :=
+  names.filterMap fun n => (lookup pending n).map fun c => (n, c)
+
+def isPerm (names : List String) (pending : List (String × Cert)) : Bool :=
+  sortU names == sortU (pending.map (·.1)) && names.length == pending.length
+
+/-- the store after bootstrap (visiting order `border`) and `n` completed rotations, write-log model -/
+def storeAfter (cfg : Cfg) (border : List String) : Nat → Store
+  | 0 =>
+    let mu := bootMut "root" "sk" rootCert firstCert
+    applyWrites (fullWrites cfg Manifest.empty mu (orderOf border mu.certs)) []
+  | n + 1 =>
+    let st := storeAfter cfg border n
+    let m := (storedManifest st).getD Manifest.empty
+    let mu := rotMut (keyName (n + 1)) (rotCert (n + 1))
+    applyWrites (fullWrites cfg m mu mu.certs) st
+
+/-- the same history in the call-by-call model of Model/Rotate.lean (fault-free) -/
+def runStoreAfter (cfg : Cfg) (border : List String) (n : Nat) : Store :=
+  let perm := border.head? == some "sk"
+  let s0 := (bootstrap cfg "root" "sk" ⟨"rootcn", 1⟩ ⟨"sigcn", 2⟩ perm noFault St.init).state.reload
+  ((List.range n).foldl (fun s i => (rotateKey cfg ⟨"sig", 3 + i⟩ noFault s).state.reload) s0).store
+
+def bits (l : List Bool) : String := String.join (l.map fun b => if b then "1" else "0")
+
+def showManifest (st : Store) : String :=
+  match lookup st manifestName with
+  | some (.manifest m) => m.root ++ "|" ++ m.signing ++ "|" ++
+      ",".intercalate (m.entries.map fun (e : String × String) => e.1 ++ ">" ++ e.2)
+  | none => "none"
+  | some _ => "bad"
+
+def handle (f : Fields) : String :=
+  match f.get "op" with
+  | "fin" =>
+    let i := f.nat "i"
+    let border := f.list "border"
+    let histCfg := cfgOf false
+    let cfg := cfgOf (f.bool "ow")
+    -- state before the operation
+    let st0 : Store := if i = 0 then [] else storeAfter histCfg border (i - 1)
+    let st0 := if f.has "plant" then (f.get "plant", Obj.der ⟨"planted", 0, 99, 0⟩) :: st0 else st0
+    let m := (storedManifest st0).getD Manifest.empty
+    let mu := if i = 0 then bootMut "root" "sk" rootCert firstCert else rotMut (keyName i) (rotCert i)
+    let names := f.list "order"
+    let order := orderOf names mu.certs
+    let log := finalizeLog cfg st0 m mu order
+    let ws := writesOf log
+    let cons := (List.range (ws.length + 1)).map fun k => consistentB cfg (applyPrefix k ws st0)
+    let final := applyWrites ws st0
+    -- cross-check with the call-by-call model when the run is a plain complete one
+    let agree := f.has "plant" || showStore (runStoreAfter histCfg border i) == showStore (if i = 0 then final else storeAfter histCfg border i)
+    s!"perm={b2s (isPerm names mu.certs)} log={",".intercalate (log.map showOp)} cons={bits cons} man={showManifest final} agree={b2s agree}"
+  | _ => "bad-op"
 
 end GceTcb.Drive.C11
